@@ -23,7 +23,7 @@ from . import core, modelgen, obs
 TIERS = {
     "smoke": dict(workers=4, sessions=6, steps=6, n_models=4, budget=900, mirror_rate=16),
     "quick": dict(workers=16, sessions=40, steps=8, n_models=8, budget=1200, mirror_rate=32),
-    "thorough": dict(workers=16, sessions=220, steps=8, n_models=12, budget=6000, mirror_rate=40, rounds=1),
+    "thorough": dict(workers=16, sessions=400, steps=9, n_models=12, budget=7200, mirror_rate=40),
 }
 
 SMALL = dict(n_comp=None, n_states=None)
@@ -186,15 +186,19 @@ def main(tier: str, workers: int = 16) -> int:
         if k.startswith("armed:") and k.split(":", 1)[1] not in fault_kinds:
             fault_kinds[k.split(":", 1)[1]] = {"armed": v, "fired": 0}
     state_faults = {k.split(":", 1)[1]: v for k, v in sorted(stats.items()) if k.startswith("damage:")}
-    nontrivial = stats.get("success_with_nondefault_option", 0) + sum(v["fired"] for v in fault_kinds.values())
+    sigs = set()
+    for r in results:
+        sigs |= set(r.get("sigs", []))
+    nontrivial = len(sigs)
     log_digest = obs.sha(obs.canon([[r["worker"], r["log_digest"]] for r in results]))
     cov = {
         "evaluations": inv,
         "distinct_nontrivial": nontrivial,
-        "rule": ("evaluations = CLI invocations judged against the reference model; an invocation counts as non-trivial "
-                 "when its reference was Success with at least one non-default option, or a call fault actually fired "
-                 "inside it (counted by the seam). Counted per invocation; sessions are distinct by construction "
-                 "(Hypothesis does not repeat an example within a run), option tuples are not deduplicated across workers."),
+        "rule": ("evaluations = CLI invocations judged against the reference model. distinct_nontrivial = number of DISTINCT "
+                 "signatures (sub-command, full option tuple, call fault that actually fired, formatter environment and stub "
+                 "mode, outcome class, whether an output file pre-existed, cwd) among invocations whose reference was Success "
+                 "with at least one non-default option or inside which a call fault fired (counted by the seam); "
+                 "deduplicated across sessions and workers."),
         "samples": [s for r in results[:3] for s in r.get("samples", [])[:1]],
         "sessions": sum(r.get("n_sessions", 0) for r in results),
         "workers": [{"worker": p["worker"], "hyp_seed": p["hyp_seed"], "stub": p["stub"], "faults": p["faults"],
